@@ -316,7 +316,12 @@ impl Recog {
                     OtherParamByte | OtherIntermediate | Hash | Pct | Paren => {
                         self.stop("parameter/intermediate byte outside the documented subset inside CSI")
                     }
-                    _ if nongraphic => self.stop("ESC, NUL, DEL, SO/SI, other C0, C1 or non-ASCII inside CSI"),
+                    _ if nongraphic && cl != NonAscii => {
+                        self.stop("ESC, NUL, DEL, SO/SI, other C0 or C1 inside CSI")
+                    }
+                    // everything else - including a non-ASCII character, which the documented
+                    // grammar does not list among the characters handled inside a CSI - is the
+                    // final: unknown finals are consumed without effect
                     _ => {
                         self.params.push(self.cur);
                         let ev = Op::Csi(c.to_string(), self.params.clone(), self.private).lower();
